@@ -135,8 +135,105 @@ fn reply_eq(want: &Value, got: &Value) -> bool {
     w == g
 }
 
+/// `vh bridge --rawsweep`: what an upgraded service says first, in sizes around the copy buffer of the bridge (8192): the
+/// greeting alone, or the upgrade reply plus the greeting, is an exact multiple of the buffer (a byte-size refinement of
+/// Bridge.tla's `greet` / GreetingForwarded, in the direct mode where everything passes through the copy loops)
+fn run_rawsweep(bin: &str) {
+    let env = start_env("bridge-raw");
+    let mut nfail = 0usize;
+    let mut execs = 0usize;
+    let mut lens: Vec<usize> = Vec::new();
+    for k in 1..=3usize {
+        for d in [-1i64, 0, 1] {
+            lens.push((8192 * k as i64 + d) as usize);
+        }
+    }
+    for (ci, base_len) in lens.iter().enumerate() {
+        for with_reply in [false, true] {
+            let tok = format!("raw{}{}", ci, if with_reply { "r" } else { "g" });
+            let reply = json!({"parameters": {"step": 1, "tok": tok}});
+            let reply_len = serde_json::to_vec(&reply).unwrap().len() + 1;
+            // with_reply: reply + greeting together are base_len bytes
+            let greet_len = if with_reply { base_len - reply_len } else { *base_len };
+            let req = json!({"method": "org.example.script.Run", "upgrade": true, "parameters": {"script": ["r", "u", "g"], "tok": tok, "greet_len": greet_len}});
+            let mut cmd = Command::new(bin);
+            cmd.arg("bridge").arg("--connect").arg(env.b.address.clone());
+            cmd.stdin(Stdio::piped()).stdout(Stdio::piped()).stderr(Stdio::piped());
+            execs += 1;
+            let mut child = match cmd.spawn() { Ok(c) => c, Err(e) => { emit(&json!({"fail": true, "case": ci, "variant": "rawsweep", "sig": "rawsweep spawn", "detail": format!("cannot start the bridge: {}", e)})); nfail += 1; continue; } };
+            let mut stdin = child.stdin.take().unwrap();
+            let mut stdout = child.stdout.take().unwrap();
+            let mut b = serde_json::to_vec(&req).unwrap();
+            b.push(0);
+            let _ = stdin.write_all(&b);
+            let _ = stdin.flush();
+            // read reply + greeting, give up after 3 s without the expected amount
+            let want_total = reply_len + greet_len;
+            let (tx, rx) = std::sync::mpsc::channel::<Vec<u8>>();
+            let rd = std::thread::spawn(move || {
+                let mut all = Vec::new();
+                let mut buf = [0u8; 65536];
+                loop {
+                    match stdout.read(&mut buf) {
+                        Ok(0) | Err(_) => break,
+                        Ok(n) => { all.extend_from_slice(&buf[..n]); let _ = tx.send(all.clone()); }
+                    }
+                }
+            });
+            let t0 = Instant::now();
+            let mut got: Vec<u8> = Vec::new();
+            while t0.elapsed() < Duration::from_secs(3) && got.len() < want_total {
+                if let Ok(v) = rx.recv_timeout(Duration::from_millis(50)) { got = v; }
+            }
+            // what counts is what the client has while the session is still open (a client waiting for the rest would wait for ever)
+            let got_while_open = got.len();
+            drop(stdin);
+            let t1 = Instant::now();
+            let mut status = None;
+            while t1.elapsed() < Duration::from_secs(6) {
+                if let Ok(Some(s)) = child.try_wait() { status = Some(s); break; }
+                std::thread::sleep(Duration::from_millis(2));
+            }
+            if status.is_none() { let _ = child.kill(); let _ = child.wait(); }
+            let _ = rd.join();
+            if got_while_open < want_total {
+                nfail += 1;
+                emit(&json!({"fail": true, "case": ci, "variant": "rawsweep", "sig": format!("rawsweep held back total={} with_reply={}", base_len, with_reply),
+                    "detail": format!("upgraded service said {} bytes right behind its {}-byte reply; 3 s later the client of `bridge --connect` (its side still open) had received only {} of {} bytes", greet_len, reply_len, got_while_open, want_total)}));
+                continue;
+            }
+            let mut expect = serde_json::to_vec(&reply).unwrap();
+            expect.push(0);
+            let mut hello = format!("HELLO-{}\n", tok).into_bytes();
+            hello.extend(std::iter::repeat(b'x').take(greet_len - hello.len() - 501));
+            hello.push(b'\n');
+            hello.extend(std::iter::repeat(b'y').take(500));
+            expect.extend_from_slice(&hello);
+            // the reply is compared as JSON, the raw part byte for byte
+            let (msgs, _) = split_nul(&got);
+            let reply_ok = msgs.first().and_then(|m| serde_json::from_slice::<Value>(m).ok()).map(|v| reply_eq(&reply, &v)).unwrap_or(false);
+            let raw_got: Vec<u8> = got.iter().position(|b| *b == 0).map(|p| got[p + 1..].to_vec()).unwrap_or_default();
+            if !reply_ok || raw_got != hello {
+                nfail += 1;
+                emit(&json!({"fail": true, "case": ci, "variant": "rawsweep", "sig": format!("rawsweep total={} with_reply={}", base_len, with_reply),
+                    "detail": format!("upgraded service said {} bytes right behind its reply (reply {} bytes{}); through `bridge --connect` the client received {} raw bytes (first difference at {:?}), reply ok: {}",
+                        hello.len(), reply_len, if with_reply { ", together a multiple of 8192 +- 1" } else { "" }, raw_got.len(),
+                        raw_got.iter().zip(hello.iter()).position(|(a, b)| a != b).or(if raw_got.len() != hello.len() { Some(raw_got.len().min(hello.len())) } else { None }), reply_ok)}));
+            } else if !status.map(|s| s.success()).unwrap_or(false) {
+                nfail += 1;
+                emit(&json!({"fail": true, "case": ci, "variant": "rawsweep", "sig": "rawsweep exit", "detail": format!("bridge exit status {:?} after an upgraded session the client ended", status)}));
+            }
+        }
+    }
+    emit(&json!({"summary": true, "cases": lens.len() * 2, "executions": execs, "failures": nfail}));
+}
+
 pub fn run(args: &[String]) {
     let bin = std::env::var("VERIF_VARLINK_BIN").expect("VERIF_VARLINK_BIN");
+    if args.iter().any(|a| a == "--rawsweep") {
+        run_rawsweep(&bin);
+        return;
+    }
     let sub: String = args.iter().find_map(|a| a.strip_prefix("--direct=")).unwrap_or("connect").to_string();
     // --abandon: the client writes its requests and closes its side at once, without waiting for the replies (termination clause)
     let abandon = args.iter().any(|a| a == "--abandon");
@@ -267,6 +364,16 @@ pub fn run(args: &[String]) {
                 if !wait_msgs(seen, &collected) {
                     stalled = Some(format!("reply to request {} did not arrive within 4 s ({} of {} so far)", q["method"], count_msgs(&collected), seen));
                     break;
+                }
+                if ci % 3 == 0 && k + 1 < conc.len() {
+                    // between two requests (the session is idle) the bridge is stopped and continued (job control, a debugger
+                    // attaching): its blocking calls are interrupted, which changes nothing for the session
+                    let pid = child.id() as libc::pid_t;
+                    std::thread::sleep(Duration::from_millis(5));
+                    unsafe { libc::kill(pid, libc::SIGSTOP); }
+                    std::thread::sleep(Duration::from_millis(15));
+                    unsafe { libc::kill(pid, libc::SIGCONT); }
+                    std::thread::sleep(Duration::from_millis(5));
                 }
             }
             if stalled.is_none() && !payload.is_empty() {
